@@ -4,7 +4,7 @@ FL = '-fno-sanitize=null'
 PROP = dict(
     rule='rapidcheck cases {api in parallel_for / parallel_foreach(begin,end) / parallel_foreach(container) / parallel_in_blocks_of<B>, '
          'B in {1,2,3,7,16,64}; index type (8 for parallel_for, the 6 that compile for blocks); n from a boundary table: negative, 0, 1, '
-         'around thread counts and block sizes, kB+-1, 255/32767 type maxima, random <= 2^16, some <= 2^20; tasking threads 1..32 via '
+         'around thread counts and block sizes, kB+-1, 255/32767 type maxima, random <= 2^16, some <= 2^20, and (block tiling only, blocks of 2^16 / 2^20) counts around 2^31, 2^32, 2^33; a scheduler backlog of 0 / ~300 / ~600 queued tasks behind busy workers; tasking threads 1..32 via '
          'initTaskingSystem or unchanged; cost profile none / every 7th index / one straggler / hash-random; nesting none / inner '
          'parallel_for / inner blocks loop of size <= 64} run on each of the four backends (one binary each). Oracle: per-index atomic '
          'counter == 1 and a plain (non-atomic) per-index write visible after return, nothing outside [0,n), completed == n, active == 0, '
@@ -14,7 +14,7 @@ PROP = dict(
     parallel=2,
     confirm_replays=5,
     assumptions=TRUST + ['schedules inside TBB / libgomp / enkiTS are sampled (thread counts, cost profiles, nesting), not enumerated',
-                         'counts >= 2^31 are outside the explored domain'],
+                         'counts >= 2^31 are explored for parallel_in_blocks_of block boundaries only (not per index)'],
     bins=[rc('C01_parallel_tbb', 'harness/C01_parallel.cpp', 'tbb-asan', flags=FL),
           rc('C01_parallel_omp', 'harness/C01_parallel.cpp', 'omp-asan', flags=FL),
           rc('C01_parallel_internal', 'harness/C01_parallel.cpp', 'internal-asan', flags=FL),
